@@ -35,6 +35,8 @@ static void gen_samples(const char* kind, unsigned nb, size_t ssz, unsigned long
         sz[i] = n; pos += n; }
     if (!strncmp(kind, "off", 3)) {   /* every sample but the last ones starts with bytes found exactly D bytes before the end of the buffer (= of the content offered to finalize) */
         size_t const D = (size_t)atoi(kind + 3); size_t p2 = 0; for (i = 0; i < nb; i++) { if (D <= pos && p2 + sz[i] + D + 64 <= pos && sz[i] >= 48) memcpy(b + p2, b + pos - D, 48); p2 += sz[i]; } }
+    {   /* hand the trainers a buffer of EXACTLY the samples' total size: a read past the last sample hits the sanitizer's redzone */
+        unsigned char* exact = (unsigned char*)malloc(pos ? pos : 1); memcpy(exact, b, pos); free(b); b = exact; }
     *buf = b; *sizes = sz; *total = pos;
 }
 static void on_alarm(int sg) { (void)sg; { static const char m[] = "res=HANG\n"; if (write(1, m, sizeof m - 1) < 0) {} } _exit(3); }
